@@ -449,6 +449,22 @@ def IsCompatible(left, right):
         return left == right
 
 
+def ResolveAssignmentType(target, source):
+    """The type a value of type `source` is converted to when it is stored in
+    a variable (assignment, initialiser) or returned as a `target`.
+
+    Numeric types of the same shape are converted to the target type, all
+    other values are stored as they are."""
+    if (
+        target.IsPrimitive()
+        and source.IsPrimitive()
+        and IsCompatible(target, source)
+    ):
+        return target
+
+    return source
+
+
 def Match(leftType, rightType):
     """Match two types.
     @return How well the two types match. 0 indicates the types are
